@@ -78,7 +78,6 @@ type Sim struct {
 	fails    []failure
 
 	timerBud, failBud int32
-	wg                sync.WaitGroup
 	active            int32
 }
 
@@ -509,9 +508,8 @@ func (s *Sim) inject(in Inj) {
 
 // goInject runs an injection on a fresh harness goroutine.
 func (s *Sim) goInject(in Inj) {
-	s.wg.Add(1)
+	// no WaitGroup: these goroutines are counted by runtime.NumGoroutine in waitQuiet
 	go func() {
-		defer s.wg.Done()
 		s.mu.Lock()
 		s.harnessGid[curGid()] = true
 		s.mu.Unlock()
@@ -616,9 +614,7 @@ func RunCase(c *Case) (res *Result) {
 		}
 		s.inject(in)
 	}
-	s.wg.Wait()
 	quiet := s.waitQuiet(base, 6*time.Second)
-	s.wg.Wait()
 	s.mu.Lock()
 	if !quiet {
 		s.fail("no-quiescence", "activity did not stop within 6s after the last injection (livelock or deadlock)")
